@@ -563,6 +563,13 @@ def gen_composite(run):
   for zk in ("str", "tuple", "Fraction", "complex"):
     for prog in ("melody", "chord", "overlap", "late"):
       yield ("zero-kind", zk, prog)
+    # every order in which 3 or 4 overlapping events can end (all permutations of their lengths) x every
+    # stagger of their starts: an event that is not the most recent one ends while others go on (seed C16-W:
+    # swap-with-last removal reorders the sum, visible only for items whose + does not commute)
+    for k in (3, 4):
+      for lens in itertools.permutations(range(1, k + 1)):
+        for deltas in itertools.product((0, 1), repeat=k - 1):
+          yield ("zero-kind", zk, tuple(zip((0,) + deltas, lens)))
   for shape in ("plain-before", "plain-after", "plain-outlives", "two-submixers", "alternate-two-mixers", "submixer-of-submixer"):
     for keep in (False, True):
       yield ("nested", shape, keep)
@@ -577,7 +584,7 @@ def run_composite(case):
           "Fraction": (lambda i, j: F(i + 1, j + 2)), "complex": (lambda i, j: complex(i, j + 1))}[a]
     zero = {"str": "", "tuple": (), "Fraction": F(0), "complex": 0j}[a]
     plan = {"melody": [(0, 2), (2, 2), (2, 1)], "chord": [(0, 3), (0, 2), (0, 1)], "overlap": [(0, 4), (1, 2), (1, 3)],
-            "late": [(0, 2), (5, 2)]}[b]
+            "late": [(0, 2), (5, 2)]}[b] if isinstance(b, str) else [tuple(x) for x in b]
     sm = Streamix(zero=zero)
     T, evs = 0, []
     for i, (delta, ln) in enumerate(plan):
@@ -600,7 +607,7 @@ def run_composite(case):
     if got != exp or any(type(g) is not type(e) for g, e in zip(got, exp)):
       return bad("mixer:zero-kind:value", "sample n is the zero value plus the items due at n (items: %s)" % a,
                  [repr(v) for v in exp], [repr(v) for v in got], True)
-    return R(None, True, (a, b))
+    return R(None, True, (a, b if isinstance(b, str) else "perm%d" % len(b)))
   shape, keep = a, b
   N = 9
   def inner(base):
@@ -663,7 +670,7 @@ KINDS = OrderedDict([
                  rule="many events with the same non-dyadic delta; non-trivial: all")),
   ("control", Kind(gen_control, run_control, chunk=2000,
                    rule="all words over {assign a, assign b, read}; non-trivial: >=1 assignment and >=1 read")),
-  ("composite", Kind(gen_composite, run_composite, chunk=4, rule="zero values / items that are strings, tuples, Fractions, complex x 4 programs; mixers as events of mixers x 6 shapes x keep")),
+  ("composite", Kind(gen_composite, run_composite, chunk=64, rule="zero values / items that are strings, tuples, Fractions, complex x (4 programs + every ending order of 3 and 4 overlapping events x every 0/1 stagger of their starts); mixers as events of mixers x 6 shapes x keep")),
   ("call-routes", Kind(gen_routes, run_routes, chunk=1,
                        rule="each function with every documented parameter set: all positional / all keyword / every split must agree")),
   ("param-types", Kind(gen_types, run_types, chunk=1,
